@@ -123,11 +123,14 @@ def check_doc(h, tag, kind, info, text, untagged, ctx):
             continue
         if suffix.startswith(REJECT):
             if st == 'ok':
-                if info.get('merge_source'):
+                if info.get('merge_source') or info.get('value_key'):
                     try:
                         res2 = list(yaml.load_all(untagged, Loader=getattr(yaml, lname))) if not fn else list(yaml.full_load_all(untagged))
                         if bisim.diff(res, res2, ordered=True) is None and not flagged:
-                            ctx.violation(case, dict(who, what='object-construction tag directly on a merge source is ignored, not rejected (no effect)'), 'F13')
+                            if info.get('value_key'):
+                                ctx.violation(case, dict(who, what='object-construction tag on or beside the value of a "=" key under a scalar core tag is ignored, not rejected (no effect)'), 'F22')
+                            else:
+                                ctx.violation(case, dict(who, what='object-construction tag directly on a merge source is ignored, not rejected (no effect)'), 'F13')
                             continue
                     except Exception:
                         pass
@@ -143,7 +146,7 @@ def check_doc(h, tag, kind, info, text, untagged, ctx):
             name = suffix[5:]
             ok, target = resolvable(name)
             if st == 'ok':
-                if info.get('merge_source') or info.get('ctx') == 'set_value':
+                if info.get('merge_source') or info.get('value_key') or info.get('shadowed') or info.get('ctx') == 'set_value':
                     continue            # the value of a set entry is constructed and dropped: nothing to find in the result
                 if not ok:
                     ctx.violation(case, dict(who, what='python/name resolved a name that is not an existing attribute of an imported module', result=repr(res)[:200]), None)
